@@ -8,6 +8,9 @@
 //   S ... / GO
 // Instructions:
 //   probe r | gid | hbget | guard v | unguard v | gpe v | relist v | gepoch v | fwd [n] | cur | min
+#ifdef VERIF_COVERAGE
+extern "C" void __gcov_dump(void);  // coverage build only (check/coverage.py)
+#endif
 #include <sys/wait.h>
 #include <unistd.h>
 
@@ -390,6 +393,9 @@ main()
         // (e.g. a loop over plain memory that does not terminate) cannot be preempted by the baton scheduler
         alarm(20);
         run_child(sc);
+#ifdef VERIF_COVERAGE
+        __gcov_dump();
+#endif
         _exit(0);
       }
       int st = 0;
